@@ -7,6 +7,7 @@ import GeonumModel.Lemmas.Exact
 import GeonumModel.Lemmas.ExactAdd
 import GeonumModel.Lemmas.FloatReflect
 import GeonumModel.Lemmas.FloatMetric
+import GeonumModel.Spec.RoundWitness
 
 set_option linter.unusedSectionVars false
 set_option linter.unusedVariables false
@@ -234,5 +235,18 @@ theorem scaleRotate_float {g : Geonum F} {f : F} {r : Angle F} (hg : g.angle.Inv
 end B
 
 example {F : Type} [FloatSpec F] : (⟨zero, 6⟩ : Angle F).Inv := inv_zero 6
+
+
+/-! ### R — on the arithmetic that really rounds (`R64`: round-to-nearest on the binary64 grid, correctly rounded libm) -/
+section R
+
+/-- (R) reflecting twice restores the direction, for all binary64 numbers and axes with canonical angles -/
+theorem reflect_twice_rounded {g axis : Geonum R64} (hg : g.angle.Inv) (hax : axis.angle.Inv) :
+    ((g.reflect axis).reflect axis).mag = g.mag ∧
+    ∃ (δ : ℝ) (m : ℤ), |δ| < 6 * ((e10 : R64).v + 1 / 10 ^ 15) ∧
+      Angle.Tq ((g.reflect axis).reflect axis).angle = Angle.Tq g.angle + δ + (m : ℝ) * (4 * (qp : R64).v) :=
+  reflect_twice_float (F := R64) hg hax
+
+end R
 
 end GeonumModel.C12
